@@ -84,6 +84,7 @@ type Step struct {
 	StopMs   int      `json:"stopMs"`
 	GraceMs  int      `json:"graceMs"`
 	Checks   []Check  `json:"checks"`
+	Tl       []TLE    `json:"tl"` // the time line recorded while the node was lost
 	// C08 (op Http)
 	Case     string   `json:"case"`
 	Fields   []string `json:"fields"` // names of request/response fields that differ
@@ -100,6 +101,22 @@ type Lstate struct {
 type EC struct {
 	E string `json:"e"`
 	C int    `json:"c"`
+}
+
+// TLE is one event of a loss scenario's time line: what the driver did (lose, kill, exited) or what a
+// node's admin port showed when it changed (view: its routing table; reg: its own upstream registry).
+type TLE struct {
+	K     string   `json:"k"`
+	O     string   `json:"o"`
+	Views []TLView `json:"views"`
+	Reg   []string `json:"reg"`
+	Ms    int      `json:"ms"`
+}
+
+type TLView struct {
+	N   string   `json:"n"`
+	St  string   `json:"st"`
+	Eps []string `json:"eps"`
 }
 
 type Check struct {
@@ -618,6 +635,9 @@ func main() {
 		}
 		if s.Checks == nil {
 			s.Checks = []Check{}
+		}
+		if s.Tl == nil {
+			s.Tl = []TLE{}
 		}
 		if s.Fields == nil {
 			s.Fields = []string{}
